@@ -30,6 +30,7 @@ RULE = (
     ' Directed: a multi-output interrupt whose handler returns one shared dict object on every call; a value bound for a defaulted parameter of a node outside the graph-level selection (flat and nested).'
     " Corners of the copying rule: a cached node on a runner with a cache (memory / disk) whose other input cannot be pickled (lock, lambda; bound or supplied), and container defaults holding an uncopyable member next to mutable state (equal runs must end alike, the declared default keeps its content)."
     " Also: a mapping node over a work list that is the inner function's signature default (mutable items, mutated by the node), repeated on same/fresh sync/async runners; histories of calls (with and without run-time select, bound name supplied or not) over a family of graphs derived from one ancestor, each call compared with the same call on a family built from scratch."
+    ' A name bound again to a distinct but equal object (identity of what each derived graph hands out); one AsyncRunner used for bounded runs from successive event loops and for two coupled bounded runs at once.'
 )
 ASSUMPTIONS = ["the mutating functions are ours; expectations are computed from the spec, never from a first run"]
 DECIDING = ["runs_checked", "defaults_checked", "identity_checked"]
@@ -811,6 +812,126 @@ def unusual_defaults(ctx, i):
     ctx.case({"unusual": which, "d": desc, "nested": nested}, True)
 
 
+def rebound_equal_objects_and_bounded_runs(ctx, i):
+    """(a) A name that is already bound is bound AGAIN to a distinct object that compares equal (a fresh empty list, an
+    equal config dict): the derived graph hands the node the object of ITS bind() call, and the two graphs' runs do not
+    see each other's mutations. (b) One AsyncRunner used for several bounded runs (max_concurrency=1..2, bodies that
+    really suspend while holding a permit): from separate event loops one after the other, and two at the same time
+    where a body of run A waits for a body of run B - every run ends as on a runner of its own."""
+    import asyncio
+
+    from hypergraph import AsyncRunner, FunctionNode, Graph, SyncRunner
+
+    rng = ctx.rng
+    # ---- (a) ----
+    seen = []
+
+    def push(x, history):
+        seen.append(history)
+        history.append(x)
+        return list(history)
+
+    nested = rng.random() < 0.5
+    base = Graph([FunctionNode(push, name="push", output_name="h")], name="rb")
+    if nested:
+        base = Graph([base.as_node(name="box")], name="rbo")
+    first, second = ([], []) if rng.random() < 0.5 else ({"items": []}, {"items": []})
+    if isinstance(first, dict):
+        def push(x, history):  # noqa: F811 - dict-shaped history
+            seen.append(history)
+            history["items"].append(x)
+            return list(history["items"])
+
+        base = Graph([FunctionNode(push, name="push", output_name="h")], name="rb")
+        if nested:
+            base = Graph([base.as_node(name="box")], name="rbo")
+    g1 = base.bind(history=first)
+    g2 = g1.bind(history=second)
+    case = {"program": f"bind(history=<obj1>) then bind(history=<equal obj2>), nested={nested}, shape={type(first).__name__}"}
+    outs = []
+    for g in (g1, g2, g1, g2):
+        seen.clear()
+        kind = rng.choice(["sync", "async"])
+        r = SyncRunner().run(g, {"x": 1}) if kind == "sync" else asyncio.run(AsyncRunner().run(g, {"x": 1}))
+        outs.append(r.values.get("h"))
+        ctx.obs["runs_checked"] += 1
+        ctx.obs["identity_checked"] += 1
+        want = first if g is g1 else second
+        if not seen or seen[0] is not want:
+            ctx.violation("C18:bound-object-identity:rebound-equal", f"{case['program']}: the graph derived by the {'first' if g is g1 else 'second'} bind() handed the node {'the OTHER call`s object' if seen and seen[0] is (second if g is g1 else first) else 'a different object'}", case)
+            break
+    else:
+        if outs != [[1], [1], [1, 1], [1, 1]]:
+            ctx.violation("C18:state-leaked-into-run", f"{case['program']}: runs of the two graphs gave {outs}; each graph owns its bound object: [[1], [1], [1, 1], [1, 1]]", case)
+    # ---- (b) ----
+    async def slow(x):
+        for _ in range(3):
+            await asyncio.sleep(0)
+        return ("slow", x)
+
+    async def slow2(x):
+        for _ in range(2):
+            await asyncio.sleep(0)
+        return ("slow2", x)
+
+    g = Graph([FunctionNode(slow, name="slow", output_name="a"), FunctionNode(slow2, name="slow2", output_name="b")], name="bnd")
+    k = rng.choice([1, 1, 2])
+    shared = AsyncRunner()
+    want = {"a": ("slow", 7), "b": ("slow2", 7)}
+    for rep in range(3):
+        form = rng.choice(["run", "map"])
+        try:
+            if form == "run":
+                res = asyncio.run(shared.run(g, {"x": 7}, max_concurrency=k)).values
+            else:
+                res = asyncio.run(shared.map(g, {"x": [7, 7]}, map_over="x", max_concurrency=k))[0].values
+        except Exception as e:  # noqa: BLE001
+            ctx.violation("C18:state-leaked-into-run:bounded-runs-one-runner", f"execution {rep + 1} ({form}, max_concurrency={k}) on a runner that already ran bounded calls in other event loops raised {e!r}", {"program": "bounded runs on one AsyncRunner from successive event loops", "k": k})
+            break
+        ctx.obs["runs_checked"] += 1
+        ctx.obs["bounded_same_runner_runs"] += 1
+        if res != want:
+            ctx.violation("C18:state-leaked-into-run:bounded-runs-one-runner", f"execution {rep + 1} ({form}) gave {res}", {"program": "bounded runs on one AsyncRunner", "k": k})
+            break
+
+    # two runs at once on one runner, same limit 1: a body of run A holds its permit until a body of run B has run
+    async def coupled():
+        b_ran = asyncio.Event()
+
+        async def a_body(x):
+            await b_ran.wait()
+            return "a-done"
+
+        async def b_body(x):
+            b_ran.set()
+            return "b-done"
+
+        ga = Graph([FunctionNode(a_body, name="a_body", output_name="ra")], name="runA")
+        gb = Graph([FunctionNode(b_body, name="b_body", output_name="rb")], name="runB")
+        r = AsyncRunner()
+        ta = asyncio.ensure_future(r.run(ga, {"x": 1}, max_concurrency=1))
+        for _ in range(5):
+            await asyncio.sleep(0)
+        tb = asyncio.ensure_future(r.run(gb, {"x": 1}, max_concurrency=1))
+        for _ in range(400):
+            if ta.done() and tb.done():
+                break
+            await asyncio.sleep(0)
+        done = (ta.done(), tb.done())
+        for t in (ta, tb):
+            if not t.done():
+                t.cancel()
+        await asyncio.gather(ta, tb, return_exceptions=True)
+        return done
+
+    done = asyncio.run(coupled())
+    ctx.obs["runs_checked"] += 2
+    ctx.obs["coupled_concurrent_bounded_runs"] += 1
+    if done != (True, True):
+        ctx.violation("C18:concurrent-deadlock:bounded-runs-one-runner", f"two bounded runs (max_concurrency=1 each) at the same time on one runner, a body of the first waiting for a body of the second: finished={done} after 400 loop turns; each call has a budget of its own", {"program": "coupled concurrent bounded runs on one AsyncRunner"})
+    ctx.case({"rebound+bounded": True, "nested": nested, "k": k}, True)
+
+
 def run(ctx):
     n = 600 if ctx.tier == "quick" else 12000
     core.WARM_P = 0.0
@@ -830,6 +951,8 @@ def run(ctx):
             mapped_default_items(ctx, i)
         elif i % 12 == 3:
             unusual_defaults(ctx, i // 12)
+        elif i % 24 == 22:
+            rebound_equal_objects_and_bounded_runs(ctx, i)
         elif i % 12 == 5:
             derived_family_history(ctx, i)
         elif i % 12 == 9:
